@@ -1,0 +1,20 @@
+//go:build verif
+
+package lossy
+
+import "image"
+
+// VerifImportPlanes runs the encoder's image import (NewEncoder -> importImage) and
+// returns copies of the padded Y/U/V planes with their strides and padded sizes.
+// Verification hook for property C19 (add-only, compiled only with -tags verif).
+func VerifImportPlanes(img image.Image, cfg EncodeConfig) (y, u, v []byte, yStride, uvStride, padW, padH int) {
+	enc := NewEncoder(img, cfg)
+	defer ReleaseEncoder(enc)
+	y = append([]byte(nil), enc.yPlane...)
+	u = append([]byte(nil), enc.uPlane...)
+	v = append([]byte(nil), enc.vPlane...)
+	return y, u, v, enc.yStride, enc.uvStride, enc.mbW * 16, enc.mbH * 16
+}
+
+// VerifImageHasAlpha exposes the lossy package's own alpha scan.
+func VerifImageHasAlpha(img image.Image) bool { return imageHasAlpha(img) }
